@@ -5,7 +5,7 @@ import srvgen
 def gen(rng, tier):
     n = 10000 if tier == "quick" else 300000
     for _ in range(n):
-        yield srvgen.gen_case(rng, loaded=True, mutate_p=0.4)
+        yield srvgen.gen_case(rng, loaded=True, mutate_p=0.4, clean_p=0.15)
 
 
 def nontrivial(case, impl, model, oracle):
